@@ -858,4 +858,103 @@ Proof.
   intros Hp Hc. unfold qdist. apply max_abs_diff_bound; unfold tmp2; apply in_or_app; [now left|].
   right. apply in_map. now apply memb_In.
 Qed.
+
+(* ---- the runs of v_1 ---- *)
+Hypothesis Hhead : exists c t, v1 = c :: t /\ col c = true.
+Let runs := gen_runs col v1.
+Let m := length alts.
+
+Lemma v1_nodup : NoDup v1.
+Proof. eapply Permutation_NoDup; [exact v1_perm|exact Hnd]. Qed.
+
+Lemma runs_alt : alt_from true runs.
+Proof. destruct Hhead as (c & t & E & Hc). unfold runs. rewrite E. rewrite <- Hc. apply gen_runs_alt. Qed.
+
+Lemma runs_concat : concat (map snd runs) = v1.
+Proof. apply gen_runs_concat. Qed.
+
+Lemma v1_split_before l1 l2 a b : v1 = l1 ++ l2 -> In a l1 -> In b l2 -> before v1 a b = true.
+Proof.
+  intros E Ha Hb. rewrite E. apply before_app_l; [assumption|]. intros Hb'.
+  pose proof v1_nodup as Hn. rewrite E in Hn. exact (NoDup_app_disj _ _ Hn b Hb' Hb).
+Qed.
+
+Lemma in_v1_alts c : In c v1 -> In c alts.
+Proof. apply (In_perm v1 c v1_perm). Qed.
+
+Lemma before_v1_to_voter r a b : In r orders -> In a v1 -> In b v1 -> col a = false \/ col b = false ->
+  before v1 a b = true -> before r a b = true.
+Proof.
+  intros Hr Ha Hb Hg Hbef. assert (Hne : a <> b) by (intros ->; rewrite before_irrefl in Hbef; discriminate).
+  apply in_v1_alts in Ha, Hb. destruct Hg as [Hg|Hg].
+  - rewrite (proj1 (grey_agree r a b Hr Ha Hb Hne Hg)). exact Hbef.
+  - rewrite (proj2 (grey_agree r b a Hr Hb Ha (not_eq_sym Hne) Hg)). exact Hbef.
+Qed.
+
+Lemma cross_suffix r : In r orders -> forall suffix pre b,
+  v1 = pre ++ concat (map snd suffix) -> alt_from b suffix ->
+  Forall (fun run => snd run <> [] /\ forall c, In c (snd run) -> col c = fst run) suffix ->
+  cross r suffix.
+Proof.
+  intros Hr. induction suffix as [|[fl rk] rest IH]; intros pre b E Halt Hfl; [exact I|].
+  cbn [map snd concat] in E. apply Forall_cons_iff in Hfl. destruct Hfl as ((Hne1 & Hc1) & Hfl'). cbn [fst snd] in *.
+  destruct Halt as (Hb0 & Halt'). subst b. split.
+  - intros a b' Ha Hb'. cbn [snd].
+    assert (Hav : In a v1) by (rewrite E; apply in_or_app; right; apply in_or_app; now left).
+    assert (Hbv : In b' v1) by (rewrite E; apply in_or_app; right; apply in_or_app; now right).
+    assert (Bv : before v1 a b' = true).
+    { apply (v1_split_before (pre ++ rk) (concat (map snd rest))); [now rewrite <- app_assoc| |assumption].
+      apply in_or_app. now right. }
+    destruct (col a) eqn:Ca; [|apply before_v1_to_voter; auto].
+    destruct (col b') eqn:Cb; [|apply before_v1_to_voter; auto].
+    (* both coloured: a grey run lies in between *)
+    assert (Hfla : fl = true) by (rewrite <- (Hc1 a Ha); exact Ca). subst fl.
+    destruct rest as [|[fl2 rk2] rest2]; [destruct Hb'|].
+    destruct Halt' as (Hf2 & _). cbn in Hf2. subst fl2.
+    apply Forall_cons_iff in Hfl'. destruct Hfl' as ((Hne2 & Hc2) & _). cbn [fst snd map concat] in *.
+    destruct rk2 as [|gg rk2']; [congruence|].
+    assert (Hgg : col gg = false) by (apply Hc2; now left).
+    assert (Hb2 : In b' (concat (map snd rest2))).
+    { apply in_app_or in Hb'. destruct Hb' as [Hb'|Hb']; [|assumption]. rewrite (Hc2 b' Hb') in Cb. discriminate. }
+    assert (Hgv : In gg v1) by (rewrite E; apply in_or_app; right; apply in_or_app; right; apply in_or_app; left; now left).
+    assert (B1 : before v1 a gg = true).
+    { apply (v1_split_before (pre ++ rk) ((gg :: rk2') ++ concat (map snd rest2))); [now rewrite <- app_assoc| |].
+      - apply in_or_app. now right.
+      - apply in_or_app. left. now left. }
+    assert (B2 : before v1 gg b' = true).
+    { apply (v1_split_before (pre ++ rk ++ gg :: rk2') (concat (map snd rest2))).
+      - rewrite E. rewrite <- !app_assoc. reflexivity.
+      - apply in_or_app. right. apply in_or_app. right. now left.
+      - assumption. }
+    apply (before_trans r a gg b'); apply before_v1_to_voter; auto.
+  - apply (IH (pre ++ rk) (negb fl)); [now rewrite <- app_assoc|assumption|assumption].
+Qed.
+
+Lemma cross_runs r : In r orders -> cross r runs.
+Proof.
+  intros Hr. apply (cross_suffix r Hr runs [] true); [now rewrite runs_concat|apply runs_alt|apply gen_runs_flags].
+Qed.
+
+Lemma length_concat_member {T} (l : list T) ls : In l ls -> (length l <= length (concat ls))%nat.
+Proof.
+  induction ls as [|x t IH]; intros H; [destruct H|]. cbn [concat]. rewrite app_length.
+  destruct H as [->|H]; [lia|]. specialize (IH H). lia.
+Qed.
+
+Lemma runs_wf r : In r orders -> wf_runs m r col runs.
+Proof.
+  intros Hr. unfold wf_runs. pose proof (gen_runs_flags col v1) as Hfl. fold runs in Hfl.
+  rewrite Forall_forall in Hfl. apply Forall_forall. intros run Hrun. destruct (Hfl run Hrun) as (Hne & Hc). split; [exact Hc|].
+  intros Hf. split.
+  - unfold m. rewrite (Permutation_length v1_perm), <- runs_concat.
+    apply length_concat_member. now apply in_map.
+  - destruct (in_split _ _ Hrun) as (l1 & l2 & E).
+    assert (Ev : v1 = concat (map snd l1) ++ snd run ++ concat (map snd l2)).
+    { rewrite <- runs_concat, E, map_app, concat_app. reflexivity. }
+    pose proof (sorted_before_segment v1 _ _ _ v1_nodup Ev) as Hs.
+    eapply SS_weaken; [|exact Hs]. cbn beta. intros a b Ha Hb Hbef.
+    assert (Hav : In a v1) by (rewrite Ev; apply in_or_app; right; apply in_or_app; now left).
+    assert (Hbv : In b v1) by (rewrite Ev; apply in_or_app; right; apply in_or_app; now left).
+    apply before_v1_to_voter; auto. left. rewrite (Hc a Ha). exact Hf.
+Qed.
 End Assembly.
